@@ -279,7 +279,9 @@ class Processor:
                 "Unpacked Collector results to apply change:"
                 , data=node_coord.node
                 , prefix="Processor::_apply_change:  ")
-            self._apply_change(yaml_path, node_coord.node, value, **kwargs)
+            self._apply_change(
+                yaml_path, node_coord.node, value,
+                value_format=value_format, tag=tag)
 
         if (isinstance(node_coord.node, list)
             and len(node_coord.node) > 0
@@ -290,7 +292,10 @@ class Processor:
                     "Expanded collected Collector results to apply change:"
                     , data=collector_node
                     , prefix="Processor::_apply_change:  ")
-                self._apply_change(yaml_path, collector_node, value, **kwargs)
+                # (value_format and tag were popped from kwargs, above)
+                self._apply_change(
+                    yaml_path, collector_node, value,
+                    value_format=value_format, tag=tag)
             return
 
         last_segment = node_coord.path_segment
